@@ -66,6 +66,8 @@ TIES = {
             "encode": ("DswModel.Tie.SwEncode", ["tie_encode"]),
             "decode": ("DswModel.Tie.SwDecode", ["tie_decode"]),
             "repair_dna": ("DswModel.Tie.SwRepair", ["tie_repair_dna"]),
+            "find_vertices": ("DswModel.Tie.SwFind", ["tie_find_vertices"]),
+            "connect_valid_graph": ("DswModel.Tie.SwValid", ["tie_connect_valid_graph", "tie_connect_valid_graph_none"]),
         },
         "extra_modules": ["DswModel.Tie.SwCorollaries", "DswModel.Tie.RepCorollaries"],
     },
